@@ -2020,6 +2020,44 @@ namespace c08
         return d;
     }
 
+    static std::string g_history;  // bound changes made after the samplers in use were allocated (empty: none)
+    static std::string shiftBounds(Rng &r, Node &n)
+    {
+        auto move = [&](double &lo, double &hi) {
+            double w = hi - lo;
+            if (!(w > 0)) w = 1;
+            double shift = (r.coin() ? 1 : -1) * (w * r.uni(1.5, 4) + 1), scale = r.uni(0.3, 2);
+            lo += shift;
+            hi = lo + w * scale;
+        };
+        switch (n.kind)
+        {
+            case K_RV:
+            {
+                ob::RealVectorBounds b(n.lo.size());
+                b.low = n.lo, b.high = n.hi;
+                size_t forced = r.ui(n.lo.size());
+                for (size_t i = 0; i < n.lo.size(); ++i)
+                    if (i == forced || r.coin(0.6)) move(b.low[i], b.high[i]);
+                n.sp->as<ob::RealVectorStateSpace>()->setBounds(b);
+                return "RealVectorStateSpace::setBounds(moved " + n.sig + ")";
+            }
+            case K_TIME:
+            {
+                double lo = n.lo[0], hi = n.hi[0];
+                move(lo, hi);
+                n.sp->as<ob::TimeStateSpace>()->setBounds(lo, hi);
+                return "TimeStateSpace::setBounds(moved " + n.sig + ")";
+            }
+            default:
+            {
+                double lo = n.dlo, hi = n.dhi;
+                move(lo, hi);
+                n.sp->as<ob::DiscreteStateSpace>()->setBounds((int)std::floor(lo), (int)std::ceil(hi));
+                return "DiscreteStateSpace::setBounds(moved " + n.sig + ")";
+            }
+        }
+    }
     static void sampleOob(Sink &sink, const Node &top, const char *clause, const char *samplerKind, const Oob &oob, const State *out,
                           const State *centre, double dist)
     {
@@ -2027,6 +2065,7 @@ namespace c08
         J j;
         j.str("space", top.sig.substr(0, 400)).str("sampler", samplerKind).str("offending_leaf", oob.leaf->sig).arr("output", reals(top, out));
         if (centre) j.arr("centre", reals(top, centre)).num("distance_or_stddev", dist);
+        if (!g_history.empty()) j.str("after", g_history.substr(0, 300));
         sink.viol(std::string("C08:") + clause + ":" + subject, j);
     }
 
@@ -2079,6 +2118,12 @@ namespace c08
         }
         long iters = n.hasDubins ? 600 : 1200;
         if (n.nleaves > 6) iters = iters * 6 / (long)n.nleaves;
+        // one round over the (described) space with the samplers allocated above; the second round runs after the bounds of
+        // some components were moved (second == true), with the very same sampler objects
+        auto round = [&](const Node &n, long iters, bool second) {
+        const ob::StateSpace &S = *n.sp;
+        double ext = extentOf(n);
+        (void)second;
         for (long it = 0; it < iters; ++it)
         {
             // (A) in-bounds input: unchanged
@@ -2133,6 +2178,39 @@ namespace c08
                         if (!S.satisfiesBounds(out) && !inBounds(n, out, false, &oob)) sampleOob(sink, n, "sample-gaussian-oob", "subspace", oob, out, ctr, d);
                 }
                 cnt.add("c08_subspace_sampler_calls");
+            }
+        }
+        };
+        round(n, iters, false);
+        // second phase: bounds of RealVector / Time / Discrete components are moved (shifted by more than their width, rescaled)
+        // directly on the component; samplers allocated before must follow the bounds as they are now
+        std::string moved;
+        NodeP root2;
+        {
+            std::vector<c06::Target> bt, wt;
+            c06::collectTargets(*zoo.root, nullptr, 0, bt, wt);
+            if (!bt.empty())
+            {
+                int nmut = rng.coin(0.3) ? 2 : 1;
+                for (int m = 0; m < nmut; ++m)
+                {
+                    const c06::Target &t = rng.pick(bt);
+                    moved += (m ? "; " : "") + shiftBounds(rng, *t.n);
+                    root2 = describe(zoo.root->sp, zoo.reg);
+                    bt.clear(), wt.clear();
+                    c06::collectTargets(*root2, nullptr, 0, bt, wt);
+                    if (bt.empty()) break;
+                }
+                if (rng.coin(0.35))
+                {
+                    zoo.root->sp->setup();
+                    root2 = describe(zoo.root->sp, zoo.reg);
+                    moved += "; setup() again";
+                }
+                g_history = moved;
+                round(*root2, std::max(30L, iters / 6), true);
+                g_history.clear();
+                cnt.add("c08_moved_bounds_cases");
             }
         }
         cnt.flush(sink);
